@@ -270,10 +270,21 @@ func (configgen *ConfigGeneratorImpl) deltaFromServiceDiff(
 		allServices = proxy.SidecarScope.ServicesByHostname()
 	}
 
+	prevServices := proxy.PrevSidecarScope.ServicesByHostname()
 	for _, service := range allServices {
-		if _, ok := serviceClusters[service.Hostname.String()]; !ok {
+		clusters, ok := serviceClusters[service.Hostname.String()]
+		if !ok {
 			// this is a service we don't currently have and we should
 			services = append(services, service)
+			continue
+		}
+		// The hostname may now resolve to a different service (for example the one of another namespace
+		// after a Sidecar change): rebuild it. Every cluster we had for it is a deletion candidate; the
+		// caller keeps what is rebuilt.
+		if prev, f := prevServices[service.Hostname]; f && !prev.Equals(service) {
+			services = append(services, service)
+			deletedClusters = append(deletedClusters, clusters.UnsortedList()...)
+			deletedClusters = append(deletedClusters, subsetClusters[service.Hostname.String()].UnsortedList()...)
 		}
 	}
 
